@@ -83,6 +83,10 @@ class FakeWS(protocol.Protocol):
         self._conn.world._call_entry(self._conn.client, "ws_open", self._RC.ws_open, self)
 
     def sendMessage(self, payload, isBinary=False):
+        if self._conn.wsclosing:
+            # Autobahn (WebSocketProtocol.sendMessage): state != STATE_OPEN
+            from autobahn.exception import Disconnected
+            raise Disconnected("Attempt to send on a closed protocol")
         self._conn.c2s.append(bytes_to_dict(payload))
 
     def connectionLost(self, reason=None):
@@ -102,6 +106,7 @@ class Conn:
         self.s2c = collections.deque()
         self.state = "open"       # open | dead
         self.closing = False      # client called loseConnection()
+        self.wsclosing = False    # the server's close frame has arrived: websocket CLOSING, TCP still up
         self.late = 0             # frames still delivered although closing (coalesced with the current one)
         self.ws = None
         self.wrapper = None
@@ -389,9 +394,9 @@ class MailboxWorld:
         for conn in self.conns:
             if conn.state != "open":
                 continue
-            if conn.c2s:
+            if conn.c2s and not conn.wsclosing:
                 acts.append({"a": "Serve", "k": conn.id})
-            if conn.s2c and not conn.closing:
+            if conn.s2c and not conn.closing and not conn.wsclosing:
                 acts.append({"a": "Deliver", "k": conn.id})
             if conn.s2c and conn.closing and conn.late > 0:
                 acts.append({"a": "LateDeliver", "k": conn.id})
@@ -436,6 +441,12 @@ class MailboxWorld:
             reactor.complete(self._attempt_of(cl))
         finally:
             self.server.welcome = saved
+
+    def _do_SrvCloseBegin(self, act):
+        """the server starts the WebSocket closing handshake and the client has seen its close frame"""
+        conn = self.conn(act["k"])
+        conn.wsclosing = True
+        conn.c2s.clear()
 
     def _do_ConnAbort(self, act):
         cl = self.clients[act["c"]]
